@@ -6,16 +6,17 @@ class ScriptedLimiter:
     """Replacement for run_timeout: answer k of the script is 'run' (inline, default) or an
     exception class to raise instead of running the function.  Counts calls."""
 
-    def __init__(self, script=None, default='run'):
+    def __init__(self, script=None, default='run', by_name=None):
         self.script = dict(script or {})
         self.default = default
+        self.by_name = dict(by_name or {})   # function name -> answer (for every call of that function)
         self.calls = 0
         self.log = []
 
     def __call__(self, timeout, func, *args, **kwargs):
         k = self.calls
         self.calls += 1
-        ans = self.script.get(k, self.default)
+        ans = self.script.get(k, self.by_name.get(getattr(func, '__name__', '?'), self.default))
         self.log.append((k, getattr(func, '__name__', '?'), ans if isinstance(ans, str) else getattr(ans, '__name__', 'exc')))
         if ans == 'run':
             return func(*args, **kwargs)
@@ -33,11 +34,11 @@ def install_inline_limiter(limiter=None):
 
 
 @contextlib.contextmanager
-def limiter(script=None, default='run'):
+def limiter(script=None, default='run', by_name=None):
     from adsg_core.optimization.assign_enc import selector
     from adsg_core.optimization import graph_processor
     old = (selector.run_timeout, graph_processor.run_timeout)
-    lim = ScriptedLimiter(script, default)
+    lim = ScriptedLimiter(script, default, by_name)
     selector.run_timeout = lim
     graph_processor.run_timeout = lim
     try:
